@@ -20,6 +20,7 @@ type addrStep struct {
 	addr      string
 	pre       string // absent | stale | file | na : state of the filesystem path before the bind
 	path      string // filesystem path concerned ("" if none)
+	twice     bool   // Bind the same address twice in a row before serving (Bind path only)
 	viaListen bool   // serve with Listen(addr) instead of Bind(addr) + DoListen
 	must      bool   // the generator knows that the endpoint, read per the property, is listenable
 	cmp       bool   // the listener's Addr().String() is expected to equal the endpoint text literally
@@ -201,6 +202,10 @@ func runAddrStep(svc *varlink.Service, vendor string, s addrStep) (o addrObs) {
 			return
 		}
 		err := svc.Bind(ctx, s.addr)
+		if err == nil && s.twice {
+			// binding the same address again without serving in between must work just as well
+			err = svc.Bind(ctx, s.addr)
+		}
 		if err != nil {
 			o.class = classifyBindErr(err)
 		} else {
@@ -312,6 +317,7 @@ func init() {
 			for k := 0; k < n; k++ {
 				st := g.addrStep(dir, uniq, k)
 				st.viaListen = g.Chance(2, 5)
+				st.twice = !st.viaListen && g.Chance(1, 4)
 				steps = append(steps, st)
 			}
 			// whatever happened before, the service must still be able to bind
